@@ -22,7 +22,7 @@ for pid in ids:
         "evidence_file": "/verif/evidence/%s.json" % pid,
         "replay_cmd_template": "./check %s --replay {path}" % pid,
         "engine": "coq-model+correspondence",
-        "level_claimed": {"category": "proof", "text": c["level_text"], "design_ref": c.get("design_ref", "DESIGN.md section 5, " + pid)},
+        "level_claimed": {"category": "proof", "text": c["level_text"], "design_ref": c.get("design_ref", "DESIGN.md Part I section I.2 (as built) and Part II section 5, " + pid)},
         "level_note": c["level_note"],
         "technique": c.get("technique", "machine-checked proof in Coq 8.16.1 over an executable Gallina model; model tied to the code by go2v regeneration (Tie A) and by a checked correspondence run (Tie B)"),
     })
